@@ -8,7 +8,7 @@
        preservation by every ProcessBlock step (`step_x`);
    (c) the lookups of a state that satisfies `Inv` and `Ext`. *)
 From BV Require Import Base.Prelude Model.Block Model.ForkDB Model.Forkable Model.ForkableLookups
-  Spec.Consumer Spec.Universe
+  Spec.Consumer Spec.Universe Spec.C18_Spec Spec.C18_Moving_Spec
   Proofs.Fk.StoreFacts Proofs.Fk.WalkFacts Proofs.Fk.LoopFacts Proofs.Fk.StoreChange Proofs.Fk.SwitchFacts
   Proofs.Fk.FixedLib Proofs.Fk.MovingLibStore Proofs.Fk.MovingLibWalk Proofs.Fk.MovingLibLoops Proofs.Fk.MovingLibInv.
 Local Open Scope N_scope.
@@ -59,24 +59,7 @@ Qed.
 Definition canon_of_ref (d : forkdb) (r : ref) : N :=
   if ri r =? 0 then 0 else match find (ri r) (store d) with Some _ => ri r | None => 0 end.
 
-(* the walk of BlockInCurrentChain transcribed onto the list of blocks it meets: `anc` are the stored
-   ancestors of the current block `cur`, newest first; `floor` is the number the walk attributes to
-   the first id that is not stored (only the LIB registered by InitLIB has one) *)
-Fixpoint canon_below (floor : option N) (anc : list block) (cur : N) (n : N) : N :=
-  match anc with
-  | [] => match floor with
-          | Some pn => if pn =? n then 0 else if pn <? n then cur else 0
-          | None => 0
-          end
-  | pr :: rest => if bnum pr =? n then bid pr else if bnum pr <? n then cur else canon_below floor rest (bid pr) n
-  end.
-
-(* seg: the retained chain of the head, newest first (head first) *)
-Definition canon_walk (floor : option N) (seg : list block) (n : N) : N :=
-  match seg with
-  | [] => 0
-  | hd :: anc => if bnum hd =? n then bid hd else canon_below floor anc (bid hd) n
-  end.
+(* canon_below / canon_walk: Spec/C18_Moving_Spec.v *)
 
 Lemma bic_loop_walk d n bot : wf_store (store d) -> num_of d 0 = None -> find bot (store d) = None ->
   forall x q, chain (store d) x bot q -> forall p e, q = p ++ [e] ->
@@ -1249,11 +1232,8 @@ Section Lookups.
 
   (* ---------------------------------------------------------------- every state reached by ROk steps *)
 
-  (* feeding the blocks `pre` to state s, every call returning ROk, delivers `evs` and ends in s' *)
-  Inductive reaches : fstate -> list block -> list event -> fstate -> Prop :=
-  | reach_nil s : reaches s [] [] s
-  | reach_step s b s1 evs pre evs' s' : fk_step cfg s b = (s1, evs, ROk) -> reaches s1 pre evs' s' ->
-                                       reaches s (b :: pre) (evs ++ evs') s'.
+  (* reaches: Spec/C18_Moving_Spec.v *)
+  Notation reaches := (reaches cfg).
 
   Lemma reach_inv : forall pre s evs s', reaches s pre evs s' -> forall Fin S, Inv s Fin S -> Ext s Fin S ->
     (forall b, In b pre -> In b U) ->
